@@ -419,8 +419,8 @@ func genQSClause(t *rapid.T) qsClause {
 		qf = field
 	}
 	w := func() string { return rapid.SampledFrom(Vocab).Draw(t, "w") }
-	switch rapid.IntRange(0, 10).Draw(t, "clause") {
-	case 10:
+	switch rapid.IntRange(0, 11).Draw(t, "clause") {
+	case 10, 11:
 		// a keyword value with characters of the syntax, each escaped with a backslash
 		pool := c17SpecialWords
 		if len(c17LiveSpecials) > 0 && rapid.IntRange(0, 3).Draw(t, "liveSpecial") != 0 {
@@ -496,7 +496,7 @@ func genQSClause(t *rapid.T) qsClause {
 
 func TestC17QueryStringGrammar(t *testing.T) {
 	ev := Ev("C17")
-	checkPropN(t, "C17", 500, func(t *rapid.T) {
+	checkPropN(t, "C17", 800, func(t *rapid.T) {
 		c := BuildCorpus(t, CorpusOpts{Engines: []string{EngScorchMem, EngUDGtreap}, MaxSteps: 5, Mapping: c17Mapping, Doc: DocGenOpts{Nums: SmallNums, Dates: wholeSecondDates, KWords: append(append([]string{}, Vocab...), c17SpecialWords...)}})
 		c17LiveSpecials = nil
 		for _, id := range c.Model.LiveIDs() {
